@@ -10,11 +10,10 @@
 (*                      cancelled context: CANCELED; anything else: DEAD,  *)
 (*                      cancel own context and the group siblings')        *)
 (*     GC               processGC: restart the largest subtrees that want  *)
-(*                      a restart (DEAD/CANCELED root), are ready (every   *)
-(*                      node DONE/DEAD/CANCELED and, in addition, its      *)
-(*                      runnable returned and was recorded) and whose      *)
-(*                      parent                                             *)
-(*                      context is live; back-off only for DEAD            *)
+(*                      a restart, are ready (every node DONE / DEAD /     *)
+(*                      CANCELED with its runnable returned and recorded)  *)
+(*                      and whose parent context is live; back-off only    *)
+(*                      for DEAD                                           *)
 (*     BackoffElapsed(n) the sleeping reschedule goroutine wakes up        *)
 (*     ProcessKill      the processor sees its own context cancelled:      *)
 (*                      cancels every node and exits                       *)
@@ -27,12 +26,21 @@
 (*                      or panics with panic capture on (k = "panic")      *)
 (*   environment: Kill  cancel the context given to supervisor.New         *)
 (*                                                                         *)
-(* The specification describes the behaviour property C18 requires.  The   *)
-(* one place where that is stricter than a literal transcription of        *)
-(* processGC: a DONE node counts as restartable only once its runnable     *)
-(* has returned and that return has been processed (pc = "reaped").  The   *)
-(* property says two instances of a service never run at once; a DONE      *)
-(* runnable that has not returned yet is still an instance.                *)
+(* The specification describes the behaviour property C18 requires.  It   *)
+(* is a transcription of the three process* functions except where the     *)
+(* property demands more than they do:                                     *)
+(*  1. a DONE node counts as restartable only once its runnable has        *)
+(*     returned and that return has been processed (pc = "reaped"): "two   *)
+(*     instances never run at once", and a death notice must never reach   *)
+(*     a node that was re-initialised in between;                          *)
+(*  2. a group sibling that already signalled Done is left alone when a    *)
+(*     member dies (its context is not cancelled), and a member that was   *)
+(*     cancelled and signalled Done only afterwards wants a restart like   *)
+(*     a CANCELED one: otherwise everything below it stays cancelled for   *)
+(*     good although "the service is started again ... for as long as the  *)
+(*     supervisor's context is live".                                      *)
+(* Back-off durations are not modelled (BackoffElapsed is untimed): the    *)
+(* harness bounds them with a deadline.                                    *)
 (*                                                                         *)
 (* The tree shape arrives as data (variable `shape`, fixed after Init /    *)
 (* trace Reset): MC_Supervisor starts from every shape of a finite family, *)
